@@ -1,9 +1,1308 @@
-//! C04 — (stub; not built yet)
+//! C04 — every bisection of the Rcb/Rib tree is within tolerance or adjacent to the weighted median.
+//!
+//! ops (floats as hex bit patterns, points point-major):
+//!   `rcb <D> <iter> <tol f64> <threads> <n> <w…> <coords f64 n·D>`
+//!   `rib <D> <iter> <tol f64> <threads> <n> <w…> <orig coords f64 n·D> <rot coords f64 n·D>`
+//!       (`rot` = the points in the frame Rib builds: `obb_frame` hook in a 1-thread pool)
+//!   `split <D> <coord> <tol f64> <min f32> <max f32> <n> <w…> <coords f32 n·D>`
+//! out:
+//!   rcb/rib: `ok <ids> | <exit>,<sum>,<weight_left>,<split_pos f32>,<n_low> …` (bisection nodes in
+//!       pre-order: node, low subtree, high subtree; `exit` ∈ allleft|plateau|nopoint|tol)
+//!   split:   `ok <exit> <split> <weight_left> <split_pos f32> | <item ids in final order>`
+//!   `panic <file:line: msg>` | `hang` | `bad-op` | `frame-mismatch` | `replay-mismatch`
+//!
+//! The ids come from the public API.  The trace comes from `replay_rcb`, a re-implementation of
+//! `rcb`/`rcb_recurse` on top of the hook `coupe::verif::rcb::par_rcb_split` (one real split per
+//! node); the exit tag of a node comes from `replica_split`, a sequential transliteration of
+//! `par_rcb_split`, cross-checked against the hook at every node.  The oracle works on the tree the
+//! implementation produced, in exact integers.
 
 use crate::common::*;
+use coupe::Partition as _;
+use coupe::PointND;
+use std::fmt::Write as _;
 
-pub fn generate(_ctx: &mut Ctx) {}
+const TOLS: [f64; 4] = [0.0, 0.01, 0.05, 0.5];
+/// iteration cap of the replica's search loop (same as the model's fuel)
+const MAX_SPLIT_ITERS: usize = 2000;
+
+const SIG_K2: &str = "rcb-k2-rounding";
+const SIG_K1C: &str = "rcb-k1c-all-left";
+const SIG_K1A: &str = "rcb-k1a-plateau";
+const SIG_K1B: &str = "rcb-k1b-heavy-left";
+const SIG_OTHER: &str = "rcb-unbalanced-other";
+const SIG_PREMISE: &str = "rcb-premise-violated";
+
+// ------------------------------------------------------------------ replica of `par_rcb_split`
+
+#[derive(Clone, Copy, PartialEq, Eq, Debug)]
+enum Exit {
+    AllLeft,
+    Plateau,
+    NoPoint,
+    Tol,
+}
+
+impl Exit {
+    fn name(self) -> &'static str {
+        match self {
+            Exit::AllLeft => "allleft",
+            Exit::Plateau => "plateau",
+            Exit::NoPoint => "nopoint",
+            Exit::Tol => "tol",
+        }
+    }
+}
+
+#[derive(Clone, Debug)]
+struct Replica {
+    exit: Exit,
+    /// `nearest_idx` at the exit (None for the all-left return)
+    pivot: Option<usize>,
+    weight_left: i64,
+    split_pos: f32,
+    count_left: usize,
+    /// `min`, `max` when the loop returned
+    fmin: f32,
+    fmax: f32,
+    /// `max` was assigned at least once (it is no longer the bounding-box bound)
+    max_updated: bool,
+    iters: usize,
+}
+
+/// Sequential transliteration of `par_rcb_split` (the search loop only) on the coordinates of the
+/// split axis. `sum` is what `rcb_recurse` passes down. `None`: the loop did not return within
+/// `MAX_SPLIT_ITERS` iterations.
+fn replica_split(xs: &[f32], ws: &[i64], sum: i64, tolerance: f64, mut min: f32, mut max: f32) -> Option<Replica> {
+    let mut prev_count_left = usize::MAX;
+    let mut max_updated = false;
+    let mut iters = 0usize;
+    loop {
+        iters += 1;
+        if iters > MAX_SPLIT_ITERS {
+            return None;
+        }
+        let split_target = (min + max) / 2.0;
+        let mut count_left = 0usize;
+        let mut weight_left = 0i64;
+        let mut nearest_idx: Option<usize> = None;
+        let mut nearest_distance = f32::INFINITY;
+        for (idx, (point, weight)) in xs.iter().zip(ws).enumerate() {
+            let distance = point - split_target;
+            if distance < 0.0 {
+                count_left += 1;
+                weight_left += *weight;
+            } else if distance < nearest_distance {
+                nearest_distance = distance;
+                nearest_idx = Some(idx);
+            }
+        }
+        let nearest_idx = match nearest_idx {
+            Some(v) => v,
+            None if prev_count_left == count_left => {
+                return Some(Replica {
+                    exit: Exit::AllLeft,
+                    pivot: None,
+                    weight_left: sum,
+                    split_pos: max,
+                    count_left,
+                    fmin: min,
+                    fmax: max,
+                    max_updated,
+                    iters,
+                });
+            }
+            None => {
+                max = split_target;
+                max_updated = true;
+                prev_count_left = count_left;
+                continue;
+            }
+        };
+        let imbalance = {
+            let ideal_weight_left = sum as f64 / 2.0;
+            let weight_left = weight_left as f64;
+            f64::abs((weight_left - ideal_weight_left) / ideal_weight_left)
+        };
+        let exit = if count_left == prev_count_left {
+            Some(Exit::Plateau)
+        } else if max <= split_target + nearest_distance {
+            Some(Exit::NoPoint)
+        } else if imbalance <= tolerance {
+            Some(Exit::Tol)
+        } else {
+            None
+        };
+        if let Some(exit) = exit {
+            return Some(Replica {
+                exit,
+                pivot: Some(nearest_idx),
+                weight_left,
+                split_pos: split_target,
+                count_left,
+                fmin: min,
+                fmax: max,
+                max_updated,
+                iters,
+            });
+        }
+        prev_count_left = count_left;
+        let weight_right = sum - weight_left;
+        if weight_left < weight_right {
+            min = split_target;
+        } else {
+            max = split_target;
+            max_updated = true;
+        }
+    }
+}
+
+/// Transliteration of `reorder_split_scalar` on the split axis: the final order of the local
+/// indices and the split index. `pivot = None`: the all-left return (nothing is moved).
+fn replica_reorder(xs: &[f32], pivot: Option<usize>) -> (Vec<usize>, usize) {
+    let n = xs.len();
+    let mut a: Vec<usize> = (0..n).collect();
+    let Some(pivot) = pivot else {
+        return (a, n);
+    };
+    a.swap(0, pivot);
+    let pv = xs[a[0]];
+    // `l`, `r` index the tail after cell 0
+    let mut l = 0usize;
+    let mut r = n - 1;
+    loop {
+        while l < r && xs[a[1 + l]] < pv {
+            l += 1;
+        }
+        while l < r && pv <= xs[a[1 + r - 1]] {
+            r -= 1;
+        }
+        if r <= l {
+            break;
+        }
+        r -= 1;
+        a.swap(1 + l, 1 + r);
+        l += 1;
+    }
+    a.swap(0, l);
+    (a, l)
+}
+
+// ------------------------------------------------------------------ the oracle, one node
+
+#[derive(Clone, Debug, Default)]
+struct NodeEval {
+    /// actual weight of the node and of its low side
+    w: i64,
+    wl: i64,
+    within_tol: bool,
+    brackets: bool,
+    /// a K2 symptom at this node (pivot not a nearest point, reported weight wrong, sum drift)
+    k2_here: bool,
+    /// exit = tolerance, or the final interval holds at most one distinct value
+    premise: bool,
+    /// achievable low weights around the half: largest with 2A <= W, smallest with 2A >= W
+    below: i64,
+    above: i64,
+    distinct: usize,
+}
+
+/// `xs`, `ws`: the node's items (split axis); `order[..split]` = the low side the implementation made.
+#[allow(clippy::too_many_arguments)]
+fn eval_node(
+    xs: &[f32],
+    ws: &[i64],
+    order: &[usize],
+    split: usize,
+    sum_passed: i64,
+    wl_reported: i64,
+    split_pos: f32,
+    tol: f64,
+    rep: Option<&Replica>,
+) -> NodeEval {
+    let n = xs.len();
+    let w: i64 = ws.iter().sum();
+    let wl: i64 = order[..split].iter().map(|&i| ws[i]).sum();
+    // achievable low weights A_1 = 0 < … : weight strictly below each distinct value; A_{m+1} = W
+    let mut idx: Vec<usize> = (0..n).collect();
+    idx.sort_by(|&a, &b| xs[a].partial_cmp(&xs[b]).unwrap_or(std::cmp::Ordering::Equal));
+    let mut ach: Vec<i64> = Vec::new();
+    let mut acc = 0i64;
+    let mut k = 0;
+    while k < n {
+        ach.push(acc);
+        let v = xs[idx[k]];
+        while k < n && xs[idx[k]] == v {
+            acc += ws[idx[k]];
+            k += 1;
+        }
+    }
+    let m = ach.len();
+    ach.push(acc); // = W
+    let within_tol = w == 0
+        || ((wl as f64 - w as f64 / 2.0) / (w as f64 / 2.0)).abs() <= tol
+        || ((2 * wl - w).abs() as f64) <= tol * w as f64;
+    let mut brackets = false;
+    for j in 0..=m {
+        if ach[j] != wl {
+            continue;
+        }
+        if j < m && 2 * ach[j] <= w && w <= 2 * ach[j + 1] {
+            brackets = true;
+        }
+        if j >= 1 && 2 * ach[j - 1] <= w && w <= 2 * ach[j] {
+            brackets = true;
+        }
+    }
+    let below = ach.iter().copied().filter(|a| 2 * a <= w).max().unwrap_or(0);
+    let above = ach.iter().copied().filter(|a| 2 * a >= w).min().unwrap_or(w);
+    // K2 symptoms, from the implementation's output alone
+    let mut k2_here = wl_reported != wl || sum_passed != w;
+    if split < n {
+        // the high side is not empty: its smallest coordinate is the pivot's; a low item at or
+        // right of the split position is a point nearer than the pivot that the search missed
+        if order[..split].iter().any(|&i| xs[i] >= split_pos) {
+            k2_here = true;
+        }
+    }
+    let premise = match rep {
+        None => false,
+        Some(r) => {
+            r.exit == Exit::Tol || {
+                let mut first: Option<f32> = None;
+                let mut resolved = true;
+                for &c in xs {
+                    let inside = r.fmin <= c && (if r.max_updated { c < r.fmax } else { c <= r.fmax });
+                    if inside {
+                        match first {
+                            None => first = Some(c),
+                            Some(f) if f == c => {}
+                            Some(_) => {
+                                resolved = false;
+                                break;
+                            }
+                        }
+                    }
+                }
+                resolved
+            }
+        }
+    };
+    NodeEval { w, wl, within_tol, brackets, k2_here, premise, below, above, distinct: m }
+}
+
+fn signature(k2: bool, exit: Option<Exit>, wl: i64, w: i64) -> &'static str {
+    if k2 {
+        SIG_K2
+    } else {
+        match exit {
+            Some(Exit::AllLeft) => SIG_K1C,
+            Some(Exit::Plateau) => SIG_K1A,
+            Some(Exit::NoPoint) if 2 * wl >= w => SIG_K1B,
+            _ => SIG_OTHER,
+        }
+    }
+}
+
+/// One bisection node as observed.
+#[derive(Clone, Debug)]
+struct NodeOut {
+    path: String,
+    coord: usize,
+    n: usize,
+    n_low: usize,
+    exit: Option<Exit>,
+    sum_passed: i64,
+    wl_reported: i64,
+    split_pos: f32,
+    drift: bool,
+    mismatch: bool,
+    /// K2 symptom here or at an ancestor
+    k2: bool,
+    /// every item lies inside `[min, max]` on the split axis
+    boxed: bool,
+    /// K2 symptom at an ancestor
+    k2_above: bool,
+    eval: NodeEval,
+}
+
+impl NodeOut {
+    fn exit_name(&self) -> &'static str {
+        if self.mismatch {
+            "replica-mismatch"
+        } else {
+            self.exit.map(|e| e.name()).unwrap_or("replica-mismatch")
+        }
+    }
+    fn token(&self) -> String {
+        if self.mismatch || self.exit.is_none() {
+            return "replica-mismatch".to_string();
+        }
+        format!(
+            "{},{},{},{:x},{}",
+            self.exit_name(),
+            self.sum_passed,
+            self.wl_reported,
+            self.split_pos.to_bits(),
+            self.n_low
+        )
+    }
+}
+
+/// Count the nodes and derive the verdicts of a case: one `(signature, what)` per signature.
+fn judge(ctx: &mut Ctx, nodes: &[NodeOut]) -> Vec<(String, String)> {
+    let mut verdicts: Vec<(String, String, usize)> = Vec::new();
+    let mut add = |sig: &str, what: String| {
+        if let Some(v) = verdicts.iter_mut().find(|v| v.0 == sig) {
+            v.2 += 1;
+        } else {
+            verdicts.push((sig.to_string(), what, 1));
+        }
+    };
+    for nd in nodes {
+        let e = &nd.eval;
+        ctx.count("node_total");
+        ctx.count(&format!("node_exit_{}", nd.exit_name()));
+        if nd.drift {
+            ctx.count("node_sum_drift");
+        }
+        if nd.mismatch {
+            ctx.count("node_replica_mismatch");
+        }
+        if e.within_tol {
+            ctx.count("node_within_tol");
+        }
+        if e.brackets {
+            ctx.count("node_brackets");
+        }
+        if e.premise {
+            ctx.count("node_premise_holds");
+        }
+        if nd.k2 {
+            ctx.count("node_k2_symptom_here_or_above");
+        }
+        if !nd.boxed {
+            ctx.count(if nd.k2_above { "node_box_not_containing_below_k2" } else { "node_box_not_containing_without_k2" });
+        }
+        if e.within_tol || e.brackets {
+            continue;
+        }
+        let sig = signature(nd.k2, nd.exit, e.wl, e.w);
+        ctx.count(&format!("node_fail_{}", sig));
+        let what = format!(
+            "node {} (axis {}, {} items, {} distinct values) exit {}: low side weighs {} of {} \
+             (reported {}, sum passed down {}, {} items low, split_pos {:e}); achievable low weights \
+             around the half: {} and {}",
+            nd.path,
+            nd.coord,
+            nd.n,
+            e.distinct,
+            nd.exit_name(),
+            e.wl,
+            e.w,
+            nd.wl_reported,
+            nd.sum_passed,
+            nd.n_low,
+            nd.split_pos,
+            e.below,
+            e.above
+        );
+        if e.premise && sig != SIG_K2 {
+            ctx.count("premise_holds_but_fails");
+            add(SIG_PREMISE, what.clone());
+        }
+        add(sig, what);
+    }
+    verdicts
+        .into_iter()
+        .map(|(s, w, k)| (s, if k > 1 { format!("{} [+{} more nodes]", w, k - 1) } else { w }))
+        .collect()
+}
+
+// ------------------------------------------------------------------ running the implementation
+
+fn to_points<const D: usize>(xs: &[f64]) -> Vec<PointND<D>> {
+    xs.chunks_exact(D).map(|c| PointND::<D>::from_column_slice(c)).collect()
+}
+
+fn pool_size(threads: usize) -> usize {
+    threads.clamp(1, 64)
+}
+
+type ApiOut = Result<Vec<usize>, String>;
+
+fn api_rcb_d<const D: usize>(iter: usize, tol: f64, threads: usize, ws: Vec<i64>, xs: Vec<f64>) -> Caught<ApiOut> {
+    catch_timeout(30, move || {
+        let points: Vec<PointND<D>> = to_points::<D>(&xs);
+        let mut ids = vec![0usize; ws.len()];
+        let r = with_pool(pool_size(threads), || {
+            coupe::Rcb { iter_count: iter, tolerance: tol }.partition(&mut ids, (points, ws))
+        });
+        r.map(|()| ids).map_err(|e| format!("{:?}", e))
+    })
+}
+
+fn api_rcb(d: usize, iter: usize, tol: f64, threads: usize, ws: &[i64], xs: &[f64]) -> Caught<ApiOut> {
+    if d == 2 {
+        api_rcb_d::<2>(iter, tol, threads, ws.to_vec(), xs.to_vec())
+    } else {
+        api_rcb_d::<3>(iter, tol, threads, ws.to_vec(), xs.to_vec())
+    }
+}
+
+fn api_rib_2(iter: usize, tol: f64, threads: usize, ws: Vec<i64>, xs: Vec<f64>) -> Caught<ApiOut> {
+    catch_timeout(30, move || {
+        let points = to_points::<2>(&xs);
+        let mut ids = vec![0usize; ws.len()];
+        let r = with_pool(pool_size(threads), || {
+            coupe::Rib { iter_count: iter, tolerance: tol }.partition(&mut ids, (&points[..], ws))
+        });
+        r.map(|()| ids).map_err(|e| format!("{:?}", e))
+    })
+}
+
+fn api_rib_3(iter: usize, tol: f64, threads: usize, ws: Vec<i64>, xs: Vec<f64>) -> Caught<ApiOut> {
+    catch_timeout(30, move || {
+        let points = to_points::<3>(&xs);
+        let mut ids = vec![0usize; ws.len()];
+        let r = with_pool(pool_size(threads), || {
+            coupe::Rib { iter_count: iter, tolerance: tol }.partition(&mut ids, (&points[..], ws))
+        });
+        r.map(|()| ids).map_err(|e| format!("{:?}", e))
+    })
+}
+
+fn api_rib(d: usize, iter: usize, tol: f64, threads: usize, ws: &[i64], xs: &[f64]) -> Caught<ApiOut> {
+    if d == 2 {
+        api_rib_2(iter, tol, threads, ws.to_vec(), xs.to_vec())
+    } else {
+        api_rib_3(iter, tol, threads, ws.to_vec(), xs.to_vec())
+    }
+}
+
+/// The frame hook in a 1-thread pool (parallel `f64` sums are only deterministic there): the
+/// points as Rib's inner Rcb sees them, flat and point-major. `Ok(None)`: no frame.
+fn frame(d: usize, xs: &[f64]) -> Caught<Option<Vec<f64>>> {
+    fn flat<const D: usize>(m: Vec<PointND<D>>) -> Vec<f64> {
+        m.iter().flat_map(|p| p.iter().copied().collect::<Vec<f64>>()).collect()
+    }
+    if d == 2 {
+        let points = to_points::<2>(xs);
+        catch(move || with_pool(1, || coupe::verif::geometry::obb_frame::<2>(&points)).map(|(m, _)| flat(m)))
+    } else {
+        let points = to_points::<3>(xs);
+        catch(move || with_pool(1, || coupe::verif::geometry::obb_frame::<3>(&points)).map(|(m, _)| flat(m)))
+    }
+}
+
+type SplitOut = (Vec<usize>, usize, i64, f32);
+
+/// The hook: one real `par_rcb_split` on copies of the arrays (structure of arrays, `d` axes).
+fn hook_split(d: usize, coords: Vec<Vec<f32>>, ws: Vec<i64>, coord: usize, tol: f64, min: f32, max: f32) -> SplitOut {
+    if d == 2 {
+        let c: [Vec<f32>; 2] = coords.try_into().expect("2 axes");
+        coupe::verif::rcb::par_rcb_split::<2>(c, ws, coord, tol, min, max)
+    } else {
+        let c: [Vec<f32>; 3] = coords.try_into().expect("3 axes");
+        coupe::verif::rcb::par_rcb_split::<3>(c, ws, coord, tol, min, max)
+    }
+}
+
+// ------------------------------------------------------------------ replay of `rcb` / `rcb_recurse`
+
+struct Replay<'a> {
+    d: usize,
+    tol: f64,
+    /// `pts[c][i]`: coordinate `c` of point `i`, `as f32`
+    pts: &'a [Vec<f32>],
+    ws: &'a [i64],
+    part: Vec<usize>,
+    nodes: Vec<NodeOut>,
+}
+
+impl Replay<'_> {
+    /// `rcb_recurse`; `items` = global indices in the order the parent left them.
+    #[allow(clippy::too_many_arguments)]
+    fn recurse(
+        &mut self,
+        items: Vec<usize>,
+        iter_count: usize,
+        iter_id: usize,
+        coord: usize,
+        sum: i64,
+        bb_min: Vec<f32>,
+        bb_max: Vec<f32>,
+        path: String,
+        k2_above: bool,
+    ) {
+        if items.is_empty() {
+            return;
+        }
+        if iter_count == 0 {
+            for &i in &items {
+                self.part[i] = iter_id;
+            }
+            return;
+        }
+        let n = items.len();
+        let local: Vec<Vec<f32>> = (0..self.d).map(|c| items.iter().map(|&i| self.pts[c][i]).collect()).collect();
+        let lws: Vec<i64> = items.iter().map(|&i| self.ws[i]).collect();
+        let actual: i64 = lws.iter().sum();
+        let drift = sum != actual;
+        let (min, max) = (bb_min[coord], bb_max[coord]);
+        let rep = replica_split(&local[coord], &lws, sum, self.tol, min, max);
+        let rep_order = rep.as_ref().map(|r| replica_reorder(&local[coord], r.pivot));
+        let mut mismatch = rep.is_none();
+        let (order, split, wl_reported, split_pos) = if drift {
+            // the hook recomputes `sum` from the weights: it cannot replay a node whose
+            // passed-down sum is wrong; the replica (run with the passed-down sum) stands in
+            match (&rep, &rep_order) {
+                (Some(r), Some((o, s))) => (o.clone(), *s, r.weight_left, r.split_pos),
+                _ => ((0..n).collect(), n, sum, max),
+            }
+        } else {
+            let xs = local[coord].clone();
+            let (o, s, wl, sp) = hook_split(self.d, local.clone(), lws.clone(), coord, self.tol, min, max);
+            match (&rep, &rep_order) {
+                (Some(r), Some((ro, rs))) => {
+                    // weight, position, low set – and the whole order, which the descendants' ties depend on
+                    let mut low_h: Vec<usize> = o[..s.min(o.len())].to_vec();
+                    let mut low_r: Vec<usize> = match r.pivot {
+                        Some(p) => (0..n).filter(|&i| xs[i] < xs[p]).collect(),
+                        None => (0..n).collect(),
+                    };
+                    low_h.sort_unstable();
+                    low_r.sort_unstable();
+                    if wl != r.weight_left
+                        || sp.to_bits() != r.split_pos.to_bits()
+                        || low_h != low_r
+                        || *rs != s
+                        || *ro != o
+                    {
+                        mismatch = true;
+                    }
+                }
+                _ => mismatch = true,
+            }
+            (o, s, wl, sp)
+        };
+        let eval = eval_node(&local[coord], &lws, &order, split, sum, wl_reported, split_pos, self.tol, rep.as_ref());
+        let k2 = k2_above || eval.k2_here;
+        // the box rcb_recurse hands down contains the node's items unless a cut above went wrong (K2)
+        let boxed = local[coord].iter().all(|&c| min <= c && c <= max);
+        self.nodes.push(NodeOut {
+            path: path.clone(),
+            coord,
+            n,
+            n_low: split,
+            exit: rep.as_ref().map(|r| r.exit),
+            sum_passed: sum,
+            wl_reported,
+            split_pos,
+            drift,
+            mismatch,
+            k2,
+            boxed,
+            k2_above,
+            eval,
+        });
+        let low: Vec<usize> = order[..split].iter().map(|&k| items[k]).collect();
+        let high: Vec<usize> = order[split..].iter().map(|&k| items[k]).collect();
+        let mut max_low = bb_max.clone();
+        max_low[coord] = split_pos;
+        let mut min_high = bb_min.clone();
+        min_high[coord] = split_pos;
+        let next = (coord + 1) % self.d;
+        self.recurse(low, iter_count - 1, 2 * iter_id + 1, next, wl_reported, bb_min, max_low, format!("{}L", path), k2);
+        self.recurse(high, iter_count - 1, 2 * iter_id + 2, next, sum - wl_reported, min_high, bb_max, format!("{}H", path), k2);
+    }
+}
+
+/// `rcb` on `n ≥ 1` points: the part ids and the bisection nodes in pre-order.
+fn replay_rcb(d: usize, iter: usize, tol: f64, ws: &[i64], xs: &[f64]) -> (Vec<usize>, Vec<NodeOut>) {
+    let n = ws.len();
+    let pts: Vec<Vec<f32>> = (0..d).map(|c| xs.chunks_exact(d).map(|p| p[c] as f32).collect()).collect();
+    // `BoundingBox::from_points` on the f64 points, read through `as f32`
+    let mut bb_min = Vec::with_capacity(d);
+    let mut bb_max = Vec::with_capacity(d);
+    for c in 0..d {
+        let mut lo = f64::MAX;
+        let mut hi = f64::MIN;
+        for p in xs.chunks_exact(d) {
+            if p[c] < lo {
+                lo = p[c];
+            }
+            if hi < p[c] {
+                hi = p[c];
+            }
+        }
+        bb_min.push(lo as f32);
+        bb_max.push(hi as f32);
+    }
+    let mut rp = Replay { d, tol, pts: &pts, ws, part: vec![0; n], nodes: Vec::new() };
+    let sum: i64 = ws.iter().sum();
+    rp.recurse((0..n).collect(), iter, 0, 0, sum, bb_min, bb_max, "r".to_string(), false);
+    let off = rp.part.iter().copied().min().unwrap_or(0);
+    let ids = rp.part.iter().map(|p| p - off).collect();
+    (ids, rp.nodes)
+}
+
+// ------------------------------------------------------------------ protocol
+
+enum Op {
+    Tree { rib: bool, d: usize, iter: usize, tol: f64, threads: usize, ws: Vec<i64>, orig: Vec<f64>, rot: Vec<f64> },
+    Split { d: usize, coord: usize, tol: f64, min: f32, max: f32, ws: Vec<i64>, xs: Vec<f32> },
+}
+
+fn hex64(t: Option<&str>) -> Option<u64> {
+    u64::from_str_radix(t?, 16).ok()
+}
+
+fn hex32(t: Option<&str>) -> Option<f32> {
+    let v = hex64(t)?;
+    if v > u32::MAX as u64 {
+        return None;
+    }
+    Some(f32::from_bits(v as u32))
+}
+
+fn parse_op(op: &str) -> Option<Op> {
+    let mut it = op.split_whitespace();
+    let kind = it.next()?;
+    match kind {
+        "rcb" | "rib" => {
+            let d: usize = it.next()?.parse().ok()?;
+            if d != 2 && d != 3 {
+                return None;
+            }
+            let iter: usize = it.next()?.parse().ok()?;
+            if iter > 40 {
+                return None;
+            }
+            let tol = f64::from_bits(hex64(it.next())?);
+            let threads: usize = it.next()?.parse().ok()?;
+            let n: usize = it.next()?.parse().ok()?;
+            let mut ws = Vec::with_capacity(n);
+            for _ in 0..n {
+                ws.push(it.next()?.parse().ok()?);
+            }
+            let mut orig = Vec::with_capacity(n * d);
+            for _ in 0..n * d {
+                orig.push(f64::from_bits(hex64(it.next())?));
+            }
+            let mut rot = Vec::new();
+            if kind == "rib" {
+                for _ in 0..n * d {
+                    rot.push(f64::from_bits(hex64(it.next())?));
+                }
+            }
+            if it.next().is_some() {
+                return None;
+            }
+            Some(Op::Tree { rib: kind == "rib", d, iter, tol, threads, ws, orig, rot })
+        }
+        "split" => {
+            let d: usize = it.next()?.parse().ok()?;
+            if d != 2 && d != 3 {
+                return None;
+            }
+            let coord: usize = it.next()?.parse().ok()?;
+            if coord >= d {
+                return None;
+            }
+            let tol = f64::from_bits(hex64(it.next())?);
+            let min = hex32(it.next())?;
+            let max = hex32(it.next())?;
+            let n: usize = it.next()?.parse().ok()?;
+            let mut ws = Vec::with_capacity(n);
+            for _ in 0..n {
+                ws.push(it.next()?.parse().ok()?);
+            }
+            let mut xs = Vec::with_capacity(n * d);
+            for _ in 0..n * d {
+                xs.push(hex32(it.next())?);
+            }
+            if it.next().is_some() {
+                return None;
+            }
+            Some(Op::Split { d, coord, tol, min, max, ws, xs })
+        }
+        _ => None,
+    }
+}
+
+fn push_f64s(s: &mut String, xs: &[f64]) {
+    for x in xs {
+        write!(s, " {:x}", x.to_bits()).unwrap();
+    }
+}
+
+fn format_tree_op(rib: bool, d: usize, iter: usize, tol: f64, threads: usize, ws: &[i64], orig: &[f64], rot: &[f64]) -> String {
+    let mut s = format!("{} {} {} {:x} {} {}", if rib { "rib" } else { "rcb" }, d, iter, tol.to_bits(), threads, ws.len());
+    for w in ws {
+        write!(s, " {}", w).unwrap();
+    }
+    push_f64s(&mut s, orig);
+    if rib {
+        push_f64s(&mut s, rot);
+    }
+    s
+}
+
+fn format_split_op(d: usize, coord: usize, tol: f64, min: f32, max: f32, ws: &[i64], xs: &[f32]) -> String {
+    let mut s = format!("split {} {} {:x} {:x} {:x} {}", d, coord, tol.to_bits(), min.to_bits(), max.to_bits(), ws.len());
+    for w in ws {
+        write!(s, " {}", w).unwrap();
+    }
+    for x in xs {
+        write!(s, " {:x}", x.to_bits()).unwrap();
+    }
+    s
+}
 
 pub fn run_op(ctx: &mut Ctx, op: &str) {
-    ctx.record(op.to_string(), "bad-op".into(), false);
+    match parse_op(op) {
+        None => {
+            ctx.count("bad-op");
+            ctx.record(op.to_string(), "bad-op".into(), false);
+        }
+        Some(Op::Tree { rib, d, iter, tol, threads, ws, orig, rot }) => run_tree(ctx, op, rib, d, iter, tol, threads, ws, orig, rot),
+        Some(Op::Split { d, coord, tol, min, max, ws, xs }) => run_split(ctx, op, d, coord, tol, min, max, ws, xs),
+    }
+}
+
+fn finish(ctx: &mut Ctx, op: &str, out: String, nontrivial: bool, verdicts: Vec<(String, String)>) {
+    ctx.count(&format!("out_{}", out.split(' ').next().unwrap_or("")));
+    let idx = ctx.record(op.to_string(), out, nontrivial);
+    for (sig, what) in verdicts {
+        ctx.fail(idx, &sig, what);
+    }
+}
+
+#[allow(clippy::too_many_arguments)]
+fn run_tree(ctx: &mut Ctx, op: &str, rib: bool, d: usize, iter: usize, tol: f64, threads: usize, ws: Vec<i64>, orig: Vec<f64>, rot: Vec<f64>) {
+    let n = ws.len();
+    ctx.count(if rib { "op_rib" } else { "op_rcb" });
+    // Rib: the frame on the line must be the frame the implementation builds
+    if rib && n > 0 {
+        let same = match frame(d, &orig) {
+            Caught::Ok(Some(f)) => f.len() == rot.len() && f.iter().zip(&rot).all(|(a, b)| a.to_bits() == b.to_bits()),
+            _ => false,
+        };
+        if !same {
+            finish(ctx, op, "frame-mismatch".into(), false, vec![]);
+            return;
+        }
+    }
+    // the public API; Rib in a 1-thread pool (its frame is a parallel f64 sum)
+    let api = if rib { api_rib(d, iter, tol, 1, &ws, &orig) } else { api_rcb(d, iter, tol, threads, &ws, &orig) };
+    let ids = match api {
+        Caught::Ok(Ok(ids)) => ids,
+        Caught::Ok(Err(e)) => {
+            finish(ctx, op, format!("err {}", e), false, vec![("rcb-unexpected-error".into(), e)]);
+            return;
+        }
+        Caught::Panic(m) => {
+            let sig = panic_sig(&m);
+            finish(ctx, op, format!("panic {}", m), false, vec![(sig.clone(), format!("{} [{}]", m, sig))]);
+            return;
+        }
+        Caught::Hang => {
+            finish(ctx, op, "hang".into(), false, vec![("hang".into(), "watchdog (30 s)".into())]);
+            return;
+        }
+    };
+    if rib && pool_size(threads) > 1 {
+        match api_rib(d, iter, tol, threads, &ws, &orig) {
+            Caught::Ok(Ok(ids_p)) if ids_p == ids => ctx.count("rib_pool_same"),
+            _ => ctx.count("rib_pool_differs"),
+        }
+    }
+    if n == 0 {
+        finish(ctx, op, "ok |".into(), false, vec![]);
+        return;
+    }
+    // the trace: replay on the points Rcb works on
+    let pts = if rib { &rot } else { &orig };
+    let replay = {
+        let (ws2, pts2) = (ws.clone(), pts.clone());
+        catch(move || replay_rcb(d, iter, tol, &ws2, &pts2))
+    };
+    let (rids, nodes) = match replay {
+        Caught::Ok(v) => v,
+        Caught::Panic(m) => {
+            // the API ran through but a hook call did not: harness/hook inconsistency
+            ctx.count("replay_panic");
+            finish(ctx, op, format!("replay-mismatch panic {}", m), false, vec![]);
+            return;
+        }
+        Caught::Hang => unreachable!(),
+    };
+    if rids != ids {
+        ctx.count("replay_mismatch");
+        finish(ctx, op, "replay-mismatch".into(), false, vec![]);
+        return;
+    }
+    if nodes.iter().any(|nd| nd.drift) {
+        ctx.count("sum_drift");
+    }
+    let mut out = String::from("ok ");
+    out.push_str(&join(&ids));
+    out.push_str(" |");
+    for nd in &nodes {
+        out.push(' ');
+        out.push_str(&nd.token());
+    }
+    let verdicts = if ws.iter().any(|&w| w < 0) {
+        ctx.count("oracle_skipped_negative_weight");
+        vec![]
+    } else {
+        judge(ctx, &nodes)
+    };
+    finish(ctx, op, out, n >= 2 && iter >= 1, verdicts);
+}
+
+#[allow(clippy::too_many_arguments)]
+fn run_split(ctx: &mut Ctx, op: &str, d: usize, coord: usize, tol: f64, min: f32, max: f32, ws: Vec<i64>, xs: Vec<f32>) {
+    let n = ws.len();
+    ctx.count("op_split");
+    let coords: Vec<Vec<f32>> = (0..d).map(|c| xs.chunks_exact(d).map(|p| p[c]).collect()).collect();
+    let axis = coords[coord].clone();
+    let res = {
+        let ws2 = ws.clone();
+        catch_timeout(30, move || hook_split(d, coords, ws2, coord, tol, min, max))
+    };
+    let (order, split, wl, sp) = match res {
+        Caught::Ok(v) => v,
+        Caught::Panic(m) => {
+            let sig = panic_sig(&m);
+            finish(ctx, op, format!("panic {}", m), false, vec![(sig.clone(), format!("{} [{}]", m, sig))]);
+            return;
+        }
+        Caught::Hang => {
+            finish(ctx, op, "hang".into(), false, vec![("hang".into(), "watchdog (30 s)".into())]);
+            return;
+        }
+    };
+    let sum: i64 = ws.iter().sum();
+    let rep = replica_split(&axis, &ws, sum, tol, min, max);
+    let mismatch = match &rep {
+        None => true,
+        Some(r) => {
+            let (ro, rs) = replica_reorder(&axis, r.pivot);
+            r.weight_left != wl || r.split_pos.to_bits() != sp.to_bits() || rs != split || ro != order
+        }
+    };
+    let eval = eval_node(&axis, &ws, &order, split.min(order.len()), sum, wl, sp, tol, rep.as_ref());
+    let node = NodeOut {
+        path: "split".into(),
+        coord,
+        n,
+        n_low: split,
+        exit: rep.as_ref().map(|r| r.exit),
+        sum_passed: sum,
+        wl_reported: wl,
+        split_pos: sp,
+        drift: false,
+        mismatch,
+        k2: eval.k2_here,
+        boxed: axis.iter().all(|&c| min <= c && c <= max),
+        k2_above: false,
+        eval,
+    };
+    let out = format!("ok {} {} {} {:x} | {}", node.exit_name(), split, wl, sp.to_bits(), join(&order));
+    let verdicts = if n == 0 {
+        vec![]
+    } else if ws.iter().any(|&w| w < 0) {
+        ctx.count("oracle_skipped_negative_weight");
+        vec![]
+    } else if !node.boxed {
+        // rcb_recurse never calls the split with a box that misses a point (short of K2 above):
+        // such ops feed the correspondence with the model only, the property makes no claim
+        ctx.count("split_oracle_skipped_box_not_containing");
+        ctx.count(&format!("split_unboxed_exit_{}", node.exit_name()));
+        vec![]
+    } else {
+        judge(ctx, std::slice::from_ref(&node))
+    };
+    finish(ctx, op, out, n >= 2, verdicts);
+}
+
+// ------------------------------------------------------------------ generator
+
+fn unit(rng: &mut Rng) -> f64 {
+    rng.below(1 << 53) as f64 / (1u64 << 53) as f64
+}
+
+fn uniform(rng: &mut Rng, lo: f64, hi: f64) -> f64 {
+    lo + (hi - lo) * unit(rng)
+}
+
+/// no -0.0, no non-finite value, |x| <= 1e6
+fn clean(x: f64) -> f64 {
+    if !x.is_finite() || x == 0.0 {
+        0.0
+    } else {
+        x.clamp(-1e6, 1e6)
+    }
+}
+
+fn ulp32(x: f64) -> f64 {
+    let a = (x.abs() as f32).max(f32::MIN_POSITIVE);
+    (f32::from_bits(a.to_bits() + 1) - a) as f64
+}
+
+const POINT_SHAPES: [&str; 9] =
+    ["uniform", "lattice", "collinear", "clustered", "clustered_ulp", "outliers", "exponential", "identical", "two_values"];
+
+/// `n` points of dimension `d`, point-major.
+fn gen_points(rng: &mut Rng, n: usize, d: usize, shape: usize) -> Vec<f64> {
+    let mut xs = vec![0.0f64; n * d];
+    match shape {
+        0 => {
+            for x in xs.iter_mut() {
+                *x = uniform(rng, -10.0, 10.0);
+            }
+        }
+        1 => {
+            let k = 1 + rng.usize(7) as i64;
+            let off = if rng.chance(1, 2) { k / 2 } else { 0 };
+            for x in xs.iter_mut() {
+                *x = (rng.range(0, k) - off) as f64;
+            }
+        }
+        2 => {
+            let p0: Vec<f64> = (0..d).map(|_| uniform(rng, -5.0, 5.0)).collect();
+            let dir: Vec<f64> = (0..d).map(|_| if rng.chance(1, 5) { 0.0 } else { uniform(rng, -1.0, 1.0) }).collect();
+            let integer = rng.chance(1, 2);
+            for p in xs.chunks_exact_mut(d) {
+                let t = if integer { rng.range(-8, 8) as f64 } else { uniform(rng, -10.0, 10.0) };
+                for c in 0..d {
+                    p[c] = p0[c] + t * dir[c];
+                }
+            }
+        }
+        3 | 4 => {
+            let k = 2 + rng.usize(3);
+            let centers: Vec<Vec<f64>> = (0..k)
+                .map(|_| {
+                    (0..d)
+                        .map(|_| {
+                            let c = match rng.usize(3) {
+                                0 => uniform(rng, -1000.0, 1000.0),
+                                1 => uniform(rng, -4.0, 4.0),
+                                _ => rng.range(-64, 64) as f64 / 2.0,
+                            };
+                            if shape == 4 {
+                                (c as f32) as f64
+                            } else {
+                                c
+                            }
+                        })
+                        .collect()
+                })
+                .collect();
+            for p in xs.chunks_exact_mut(d) {
+                let c = &centers[rng.usize(k)];
+                for a in 0..d {
+                    let off = if shape == 3 {
+                        let mag = 10f64.powf(uniform(rng, -7.0, -3.0));
+                        if rng.chance(1, 2) {
+                            mag
+                        } else {
+                            -mag
+                        }
+                    } else {
+                        // a few f32 ulps of the centre (sometimes half ulps: rounded by `as f32`)
+                        let steps = rng.range(-6, 6) as f64 + if rng.chance(1, 4) { 0.5 } else { 0.0 };
+                        steps * ulp32(c[a])
+                    };
+                    p[a] = c[a] + off;
+                }
+            }
+        }
+        5 => {
+            for x in xs.iter_mut() {
+                *x = unit(rng);
+            }
+            let k = (1 + rng.usize(2)).min(n);
+            for _ in 0..k {
+                let i = rng.usize(n);
+                let mut any = false;
+                for a in 0..d {
+                    if rng.chance(1, 2) {
+                        xs[i * d + a] = 10f64.powf(uniform(rng, 3.0, 6.0));
+                        any = true;
+                    }
+                }
+                if !any {
+                    xs[i * d] = 10f64.powf(uniform(rng, 3.0, 6.0));
+                }
+            }
+        }
+        6 => {
+            let neg = rng.chance(1, 4);
+            let kmax = 4 + rng.usize(37);
+            for x in xs.iter_mut() {
+                let v = 0.5f64.powi(rng.usize(kmax + 1) as i32);
+                *x = if neg { -v } else { v };
+            }
+        }
+        7 => {
+            let p: Vec<f64> = (0..d).map(|_| if rng.chance(1, 2) { uniform(rng, -10.0, 10.0) } else { rng.range(-3, 3) as f64 }).collect();
+            for q in xs.chunks_exact_mut(d) {
+                q.copy_from_slice(&p);
+            }
+        }
+        _ => {
+            let a: Vec<f64> = (0..d).map(|_| if rng.chance(1, 2) { uniform(rng, -10.0, 10.0) } else { rng.range(-3, 3) as f64 }).collect();
+            let b: Vec<f64> = (0..d).map(|_| if rng.chance(1, 2) { uniform(rng, -10.0, 10.0) } else { rng.range(-3, 3) as f64 }).collect();
+            for q in xs.chunks_exact_mut(d) {
+                for c in 0..d {
+                    q[c] = if rng.chance(1, 2) { a[c] } else { b[c] };
+                }
+            }
+        }
+    }
+    for x in xs.iter_mut() {
+        *x = clean(*x);
+    }
+    xs
+}
+
+const WEIGHT_SHAPES: [&str; 6] = ["unit", "random", "one_heavy", "all_zero", "mostly_zero", "heavy_side"];
+
+/// `key[i]` = the coordinate the "heavy on one side" shape grows with.
+fn gen_weights(rng: &mut Rng, n: usize, shape: usize, key: &[f64]) -> Vec<i64> {
+    match shape {
+        0 => vec![1; n],
+        1 => (0..n).map(|_| rng.range(0, 100)).collect(),
+        2 => {
+            let mut w: Vec<i64> = if rng.chance(1, 2) { vec![1; n] } else { (0..n).map(|_| rng.range(0, 10)).collect() };
+            if n > 0 {
+                let k = rng.usize(n);
+                w[k] = 1000 * n as i64;
+            }
+            w
+        }
+        3 => vec![0; n],
+        4 => (0..n).map(|_| if rng.chance(85, 100) { 0 } else { rng.range(1, 100) }).collect(),
+        _ => {
+            let lo = key.iter().copied().fold(f64::INFINITY, f64::min);
+            let hi = key.iter().copied().fold(f64::NEG_INFINITY, f64::max);
+            let rev = rng.chance(1, 3);
+            key.iter()
+                .map(|&x| {
+                    let mut t = if hi > lo { (x - lo) / (hi - lo) } else { 0.5 };
+                    if rev {
+                        t = 1.0 - t;
+                    }
+                    (1.0 + 999.0 * t * t) as i64
+                })
+                .collect()
+        }
+    }
+}
+
+fn gen_tol(rng: &mut Rng) -> f64 {
+    if rng.chance(1, 10) {
+        rng.below(1 << 20) as f64 / (1u64 << 20) as f64 * 0.5
+    } else {
+        *rng.pick(&TOLS)
+    }
+}
+
+fn gen_n(rng: &mut Rng, quick: bool) -> usize {
+    let r = rng.usize(100);
+    if r < 35 {
+        1 + rng.usize(12)
+    } else if r < 80 {
+        13 + rng.usize(188)
+    } else if r < 97 {
+        201 + rng.usize(800)
+    } else {
+        1001 + rng.usize(if quick { 500 } else { 2000 })
+    }
+}
+
+pub fn generate(ctx: &mut Ctx) {
+    ctx.notes.push(
+        "all generated inputs have n <= 3000 < 4096 items: below rayon's `with_min_len(4096)` the fold of \
+         par_rcb_split is one sequential chunk, which is what the model (and the replica) is exact for"
+            .into(),
+    );
+    ctx.notes.push(
+        "trace = replay of rcb_recurse on top of the par_rcb_split hook (ids checked against the public API); \
+         exit tags from a Rust transliteration of par_rcb_split cross-checked against the hook at every node; \
+         no -0.0 / NaN / infinity is generated, |coordinate| <= 1e6, weights >= 0"
+            .into(),
+    );
+    gen_exhaustive(ctx);
+    gen_trees(ctx);
+    gen_splits(ctx);
+}
+
+/// D = 2, y = 0, iter = 1, tol = 0: all x-vectors over {0,1,2,3,8}.
+fn gen_exhaustive(ctx: &mut Ctx) {
+    const ALPHA: [f64; 5] = [0.0, 1.0, 2.0, 3.0, 8.0];
+    const WALPHA: [i64; 3] = [0, 1, 3];
+    let maxlen = ctx.budget(4, 5);
+    // every weight vector over {0,1,3} up to this length, two random ones per x-vector above
+    let full_w = ctx.budget(3, 4);
+    for len in 1..=maxlen {
+        let mut xi = vec![0usize; len];
+        loop {
+            let mut pts = Vec::with_capacity(2 * len);
+            for &k in &xi {
+                pts.push(ALPHA[k]);
+                pts.push(0.0);
+            }
+            let op = format_tree_op(false, 2, 1, 0.0, 1, &vec![1; len], &pts, &[]);
+            ctx.count("exhaustive_unit");
+            run_op(ctx, &op);
+            if len <= full_w {
+                let mut wi = vec![0usize; len];
+                loop {
+                    let ws: Vec<i64> = wi.iter().map(|&k| WALPHA[k]).collect();
+                    let op = format_tree_op(false, 2, 1, 0.0, 1, &ws, &pts, &[]);
+                    ctx.count("exhaustive_w013");
+                    run_op(ctx, &op);
+                    if !next_vec(&mut wi, WALPHA.len()) {
+                        break;
+                    }
+                }
+            } else {
+                for _ in 0..2 {
+                    let ws: Vec<i64> = (0..len).map(|_| *ctx.rng.pick(&WALPHA)).collect();
+                    let op = format_tree_op(false, 2, 1, 0.0, 1, &ws, &pts, &[]);
+                    ctx.count("exhaustive_w013_sampled");
+                    run_op(ctx, &op);
+                }
+            }
+            if !next_vec(&mut xi, ALPHA.len()) {
+                break;
+            }
+        }
+    }
+    ctx.notes.push(format!(
+        "exhaustive sub-space: rcb, D = 2, y = 0, iter = 1, tol = 0, every x-vector over {{0,1,2,3,8}} of length \
+         1..={} with unit weights; with every weight vector over {{0,1,3}} up to length {} and two sampled \
+         weight vectors per x-vector above",
+        maxlen, full_w
+    ));
+}
+
+/// odometer over `base^len`; false after the last vector
+fn next_vec(v: &mut [usize], base: usize) -> bool {
+    for x in v.iter_mut() {
+        if *x + 1 < base {
+            *x += 1;
+            return true;
+        }
+        *x = 0;
+    }
+    false
+}
+
+fn gen_trees(ctx: &mut Ctx) {
+    let cases = ctx.budget(500, 40000);
+    let quick = ctx.quick();
+    for _ in 0..cases {
+        let d = 2 + ctx.rng.usize(2);
+        let n = gen_n(&mut ctx.rng, quick);
+        let iter = 1 + ctx.rng.usize(6);
+        let tol = gen_tol(&mut ctx.rng);
+        let threads = *ctx.rng.pick(&[1usize, 4, 16]);
+        let shape = ctx.rng.usize(POINT_SHAPES.len());
+        let wshape = ctx.rng.usize(WEIGHT_SHAPES.len());
+        let pts = gen_points(&mut ctx.rng, n, d, shape);
+        let key: Vec<f64> = pts.chunks_exact(d).map(|p| p[0]).collect();
+        let ws = gen_weights(&mut ctx.rng, n, wshape, &key);
+        let want_rib = ctx.rng.chance(1, 5);
+        ctx.count(&format!("shape_{}", POINT_SHAPES[shape]));
+        ctx.count(&format!("wshape_{}", WEIGHT_SHAPES[wshape]));
+        ctx.count(match n {
+            0..=12 => "n_1_12",
+            13..=200 => "n_13_200",
+            201..=1000 => "n_201_1000",
+            _ => "n_1001_3000",
+        });
+        let mut rot: Option<Vec<f64>> = None;
+        if want_rib {
+            // degenerate inputs (one point, all identical, …) have no usable frame: not Rib cases
+            match frame(d, &pts) {
+                Caught::Ok(Some(f)) if f.len() == pts.len() && f.iter().all(|x| x.is_finite() && x.abs() <= 1e7) => {
+                    if f.iter().any(|x| *x == 0.0 && x.is_sign_negative()) {
+                        ctx.count("rib_skipped_negative_zero");
+                    } else {
+                        rot = Some(f);
+                    }
+                }
+                Caught::Ok(Some(_)) => ctx.count("rib_skipped_nonfinite_frame"),
+                Caught::Ok(None) => ctx.count("rib_skipped_no_frame"),
+                Caught::Panic(_) => ctx.count("rib_skipped_frame_panic"),
+                Caught::Hang => ctx.count("rib_skipped_frame_panic"),
+            }
+        }
+        let op = match &rot {
+            Some(r) => format_tree_op(true, d, iter, tol, threads, &ws, &pts, r),
+            None => format_tree_op(false, d, iter, tol, threads, &ws, &pts, &[]),
+        };
+        run_op(ctx, &op);
+    }
+}
+
+fn gen_splits(ctx: &mut Ctx) {
+    let cases = ctx.budget(300, 20000);
+    for _ in 0..cases {
+        let d = 2 + ctx.rng.usize(2);
+        let coord = ctx.rng.usize(d);
+        let n = match ctx.rng.usize(10) {
+            0 => ctx.rng.usize(3),
+            1..=5 => 1 + ctx.rng.usize(12),
+            6..=8 => 13 + ctx.rng.usize(88),
+            _ => 101 + ctx.rng.usize(200),
+        };
+        let tol = gen_tol(&mut ctx.rng);
+        let shape = ctx.rng.usize(POINT_SHAPES.len());
+        let wshape = ctx.rng.usize(WEIGHT_SHAPES.len());
+        let pts = gen_points(&mut ctx.rng, n, d, shape);
+        let xs: Vec<f32> = pts.iter().map(|&x| {
+            let v = x as f32;
+            if v == 0.0 { 0.0 } else { v }
+        }).collect();
+        let key: Vec<f64> = xs.chunks_exact(d).map(|p| p[coord] as f64).collect();
+        let ws = gen_weights(&mut ctx.rng, n, wshape, &key);
+        ctx.count(&format!("split_shape_{}", POINT_SHAPES[shape]));
+        ctx.count(&format!("split_wshape_{}", WEIGHT_SHAPES[wshape]));
+        let (lo, hi) = if n == 0 {
+            (0.0f32, 1.0f32)
+        } else {
+            (
+                key.iter().copied().fold(f64::INFINITY, f64::min) as f32,
+                key.iter().copied().fold(f64::NEG_INFINITY, f64::max) as f32,
+            )
+        };
+        let range = if hi > lo { hi - lo } else { 1.0 };
+        let r = ctx.rng.usize(10);
+        let (min, max) = if r < 6 {
+            ctx.count("split_box_exact");
+            (lo, hi)
+        } else if r < 9 {
+            ctx.count("split_box_loose");
+            let a = range * uniform(&mut ctx.rng, 0.0, 1.0) as f32;
+            let b = range * uniform(&mut ctx.rng, 0.0, 4.0) as f32;
+            (lo - a, hi + b)
+        } else {
+            ctx.count("split_box_not_containing");
+            match ctx.rng.usize(3) {
+                0 => (lo + range * 0.25, hi - range * 0.25),
+                1 => (lo + range * uniform(&mut ctx.rng, 0.0, 0.9) as f32, hi + range),
+                _ => (lo - range, hi - range * uniform(&mut ctx.rng, 0.1, 0.9) as f32),
+            }
+        };
+        let fix = |v: f32| if v == 0.0 || !v.is_finite() { 0.0 } else { v };
+        let op = format_split_op(d, coord, tol, fix(min), fix(max), &ws, &xs);
+        run_op(ctx, &op);
+    }
 }
